@@ -215,7 +215,12 @@ def compare(nat, sym):
         diffs.append('parse kind native=%s model=%s (%s)' % (pn['kind'], ps['kind'], ps.get('msg') or pn.get('msg')))
     elif pn['kind'] == 'ok':
         for key in ('ast', 'expr', 'describe'):
-            if pn.get(key) != ps.get(key):
+            a_, b_ = pn.get(key), ps.get(key)
+            if isinstance(a_, dict) and isinstance(b_, dict) and 'kind' in a_ and 'kind' in b_ and key != 'ast':
+                if a_['kind'] != b_['kind']:
+                    diffs.append('parse.%s outcome differs: native=%s model=%s' % (key, a_['kind'], b_['kind']))
+                continue
+            if a_ != b_:
                 diffs.append('parse.%s differs: native=%s model=%s' % (key, json.dumps(pn.get(key))[:300], json.dumps(ps.get(key))[:300]))
         rn, rs = pn.get('reparse', {}), ps.get('reparse', {})
         if rn.get('kind') != rs.get('kind'):
